@@ -2,7 +2,7 @@ SPECIFICATION GenSpec
 CONSTANTS
   AlertLS <- MCAlertLS
   RuleSets <- MCRuleSets
-  UseRuleSets = {"E0", "E1", "E2", "D1", "D2"}
+  UseRuleSets = {"E0", "E1", "E2", "D1", "D2", "N1", "N1r", "N2", "N3"}
   ScacheGCEvery = 3
   ProvGCEvery = 2
   MaxTime = 10
